@@ -727,3 +727,90 @@ func (ws *Workspace) Mutate(t *tape.Tape) map[string]string {
 
 // RemovedPrefix starts the directory names of files that exist only in the previous version.
 const RemovedPrefix = "zzremoved"
+
+// CLIUsable says whether the targeting can be expressed as a directory input plus --path /
+// --exclude-path flags (a proto-file reference is another kind of input).
+func (ws *Workspace) CLIUsable() bool {
+	for _, mod := range ws.Modules {
+		if mod.ProtoFileTarget != "" {
+			return false
+		}
+	}
+	return true
+}
+
+// WriteV2Dir writes the workspace below root as a v2 workspace (buf.yaml, one directory mod<i>
+// per module) and returns the module directories.
+func (ws *Workspace) WriteV2Dir(root string, write func(path string, data []byte)) []string {
+	var y strings.Builder
+	y.WriteString("version: v2\nmodules:\n")
+	var dirs []string
+	for _, mod := range ws.Modules {
+		dir := fmt.Sprintf("mod%d", mod.Index)
+		dirs = append(dirs, dir)
+		fmt.Fprintf(&y, "  - path: %s\n", dir)
+		if mod.Name != "" {
+			fmt.Fprintf(&y, "    name: %s\n", mod.Name)
+		}
+		for p, content := range mod.ModuleFiles() {
+			write(root+"/"+dir+"/"+p, content)
+		}
+	}
+	write(root+"/buf.yaml", []byte(y.String()))
+	return dirs
+}
+
+// PathFlags expresses the targeting as --path / --exclude-path flags (a module directory itself may
+// not be named: a fully targeted module is named by the top-level directories of its files; when
+// nothing is left out by not being named, exclusions are given alone).
+func (ws *Workspace) PathFlags(flagRoot string, modDirs []string) [][2]string {
+	restricted, needPaths := false, false
+	for _, mod := range ws.Modules {
+		if !mod.Targeted || len(mod.TargetPaths) > 0 {
+			restricted, needPaths = true, true
+		}
+		if len(mod.ExcludePaths) > 0 {
+			restricted = true
+		}
+	}
+	if !restricted {
+		return nil
+	}
+	join := func(parts ...string) string {
+		var out []string
+		for _, p := range parts {
+			if p != "" {
+				out = append(out, p)
+			}
+		}
+		return strings.Join(out, "/")
+	}
+	var flags [][2]string
+	for _, mod := range ws.Modules {
+		if !mod.Targeted {
+			continue
+		}
+		dir := join(flagRoot, modDirs[mod.Index])
+		if len(mod.TargetPaths) == 0 && needPaths {
+			tops := map[string]bool{}
+			for _, f := range mod.Files {
+				tops[strings.SplitN(f.Path, "/", 2)[0]] = true
+			}
+			var names []string
+			for top := range tops {
+				names = append(names, top)
+			}
+			sort.Strings(names)
+			for _, top := range names {
+				flags = append(flags, [2]string{"--path", join(dir, top)})
+			}
+		}
+		for _, p := range mod.TargetPaths {
+			flags = append(flags, [2]string{"--path", join(dir, p)})
+		}
+		for _, p := range mod.ExcludePaths {
+			flags = append(flags, [2]string{"--exclude-path", join(dir, p)})
+		}
+	}
+	return flags
+}
